@@ -45,6 +45,7 @@ struct Problem
     int kind, cls, n, nev, ncv;
     double scale;
     bool clean = true;
+    bool tight = false;          // second corpus part: well-behaved classes far from unit norm, tight tolerances, long runs (see c01_sym.cpp)
     std::string tag;
     MatCLD AL;                   // exact entries of the operator's matrix
     MatXd Ad;                    // double copy (reference decompositions)
@@ -177,7 +178,7 @@ static void run_history(vf::Ctx& ctx, const Problem& P, Solver& es, vw::OpCtl& c
         else if (op == 'V')
         {
             VecT v0(P.n);
-            const int sk = P.clean ? 0 : (int) r.range(0, 3);
+            const int sk = (P.clean || P.tight) ? 0 : (int) r.range(0, 3);
             if (sk == 0) { for (int i = 0; i < P.n; i++) v0[i] = T(r.gauss()); startkind = "gaussian"; }
             else if (sk == 1)
             {
@@ -213,6 +214,7 @@ static void run_history(vf::Ctx& ctx, const Problem& P, Solver& es, vw::OpCtl& c
         else
         {
             ComputeArgs a{r.pick(GEN_SELECT), r.pick(maxits), r.pick(tols), r.pick(GEN_SELECT)};
+            if (P.tight) { a.maxit = 1000; a.tol = r.pick(std::vector<T>{T(1e-11), T(1e-12), T(1e-13), T(1e-14)}); }
             const std::string shape = computed_since_init ? "after-compute" : "after-init";
             const long it0 = (long) es.num_iterations();
             ctl.limit = ctl.count + 8 * (4 + 2 * (long) P.ncv * (a.maxit + 2)) + 4 * P.nev;
@@ -257,7 +259,8 @@ static void run_history(vf::Ctx& ctx, const Problem& P, Solver& es, vw::OpCtl& c
 
 static const int GROUP_KINDS[3][2] = {{0, 1}, {2, 3}, {4, 5}};
 static long n_explore(const vf::Ctx& ctx) { return ctx.thorough ? 3000L : 640L; }
-static long n_corpus() { return sizeof(T) == 8 ? 140L : 0L; }
+static long n_corpus1() { return sizeof(T) == 8 ? 140L : 0L; }
+static long n_corpus() { return sizeof(T) == 8 ? 140L + 100L : 0L; }   // second part (ids from 140): corpus/scaled/...
 long vf_ncases(const vf::Ctx& ctx) { return n_explore(ctx) + n_corpus(); }
 
 static bool is_clean_class(int cls) { return cls == 0 || cls == 1 || cls == 6 || cls == 11; }
@@ -273,12 +276,13 @@ void vf_run_case(vf::Ctx& ctx, long idx)
     if (corpus)
     {
         ctx.case_rng("c02_corpus", ci, true);
-        P.tag = std::string("corpus/") + KSHORT[P.kind] + "/" + std::to_string(ci);
+        P.tight = ci >= n_corpus1();
+        P.tag = std::string(P.tight ? "corpus/scaled/" : "corpus/") + KSHORT[P.kind] + "/" + std::to_string(ci);
         ctx.set_tag(P.tag);
     }
     P.clean = !corpus;
     const int nmax = ctx.thorough && !corpus ? (r.coin(0.15) ? 150 : 70) : (P.mode == 2 ? 40 : 50);
-    vg::Config c = vg::gen_config(r, corpus ? 3 : 6, nmax);   // tiny problems: corpus and C13 (see c01_sym.cpp)
+    vg::Config c = vg::gen_config(r, corpus && !P.tight ? 3 : 6, nmax);   // tiny problems: corpus and C13 (see c01_sym.cpp)
     P.n = c.n; P.nev = c.nev; P.ncv = c.ncv;
     const int dec = sizeof(T) == 4 ? 4 : 8;
     if (P.clean)
@@ -286,6 +290,12 @@ void vf_run_case(vf::Ctx& ctx, long idx)
         static const int CLEAN[] = {0, 1, 6, 11};
         P.cls = CLEAN[r.range(0, 3)];
         P.scale = r.coin(0.6) ? 1.0 : std::pow(10.0, (double) r.range(-2, 2));
+    }
+    else if (P.tight)
+    {
+        static const int CLEAN[] = {0, 1, 6, 11};
+        P.cls = CLEAN[r.range(0, 3)];
+        P.scale = std::pow(10.0, (double) (r.coin(0.7) ? -r.range(3, 12) : r.range(3, 8)));
     }
     else
     {
@@ -326,7 +336,7 @@ void vf_run_case(vf::Ctx& ctx, long idx)
         for (int q = 0; q < P.n; q++) spread = std::max(spread, std::abs(P.spec[q] - P.spec[0]));
         if (!(spread > 0)) spread = (double) P.normA;
         const int j = (int) r.range(0, P.n - 1);
-        const double rel = P.clean ? (r.coin() ? 0.1 : (r.coin() ? 0.03 : 0.01)) : std::pow(10.0, -(double) r.range(1, sizeof(T) == 4 ? 3 : 6));
+        const double rel = (P.clean || P.tight) ? (r.coin() ? 0.1 : (r.coin() ? 0.03 : 0.01)) : std::pow(10.0, -(double) r.range(1, sizeof(T) == 4 ? 3 : 6));
         if (P.mode == 1)
         {
             P.sigmar = T(P.spec[j].real() + (r.coin() ? 1 : -1) * rel * spread);
@@ -340,7 +350,7 @@ void vf_run_case(vf::Ctx& ctx, long idx)
         }
         else
         {
-            const int sk = P.clean ? (int) r.range(0, 2) : (int) r.range(0, 3);   // 'above-eigenvalue' makes OP singular for a real eigenvalue: corpus only
+            const int sk = (P.clean || P.tight) ? (int) r.range(0, 2) : (int) r.range(0, 3);   // 'above-eigenvalue' makes OP singular for a real eigenvalue: corpus only
             double sr, si;
             if (sk == 0) { sr = P.spec[j].real() + rel * spread; si = std::abs(P.spec[j].imag()) + rel * spread * r.uni(0.5, 2); P.shiftkind = "near-eigenvalue"; }
             else if (sk == 1) { sr = r.uni(-1, 1) * (double) P.normA; si = r.uni(0.05, 1) * (double) P.normA; P.shiftkind = "generic"; }
